@@ -24,7 +24,8 @@ type WTxn struct {
 	undone    []*initReg
 	doneMarks []*initReg
 	result    *Snap // bound snapshot returned by Commit
-	finished  bool
+	finished  bool  // Commit or Abort has been invoked
+	done      bool  // Commit or Abort has returned
 	ops       int
 }
 
@@ -148,6 +149,7 @@ func (w *World) commit(t *simcore.Task, wt *WTxn) {
 	w.S.Logf("T%d Commit invoke", wt.id)
 	var rtxn statedb.ReadTxn
 	ok := w.guard("C02", "Commit", func() { rtxn = wt.txn.Commit() })
+	wt.done = true
 	t.Op = ""
 	tx.commit = nil
 	tx.holding = nil
@@ -216,6 +218,7 @@ func (w *World) abort(t *simcore.Task, wt *WTxn) {
 	t.Op = "Abort"
 	w.S.Logf("T%d Abort invoke", wt.id)
 	ok := w.guard("C02", "Abort", func() { wt.txn.Abort() })
+	wt.done = true
 	t.Op = ""
 	tx.abort = nil
 	tx.holding = nil
